@@ -116,98 +116,149 @@ def _drop_value_rules(chk):
 
 
 def p1_predicate(chk, repo, L):
-    """remove_spares' predicate, evaluated on the padding names that occur in structs handled by pipelines that rely on it"""
-    from ..shapes import Interp, Fn
+    """remove_spares evaluated (shape interpreter, constant keys) on a mapping holding the padding names that occur in the
+    structs next to look-alike field names, at top level and nested: exactly spare/spareN/blanks/blanksN disappear"""
+    from ..shapes import DictS, Interp, ListLit, ShapeError, _Raise
     tr = repo.module("ceos_alos2.transformers")
     rs = tr.func("remove_spares")
-    pred = rs.children.get("predicate")
-    if pred is None:
-        raise AnalysisError("anchor vanished: predicate of remove_spares")
-    I = Interp(repo)
-    f = Fn("repo", func=pred, name="predicate", closure=I.module_scope(tr).child(owner=rs))
     names = ["spare", "spare1", "spare12", "blanks", "blanks1", "blanks2", "blanks10"]
     keep = ["spare_parts", "blanksmith", "sparex", "preamble", "scene_id", "b", "spar"]
+
+    def mapping():
+        inner = DictS({n: Const(2) for n in names + keep})
+        d = DictS({n: Const(1) for n in names + keep})
+        d.items["section"] = inner
+        d.items["records"] = ListLit([DictS({n: Const(3) for n in names + keep})])
+        return d
+    I = Interp(repo)
+    f = I.lookup("remove_spares", I.module_scope(tr))
+    try:
+        out = I.call(f, [mapping()], {})
+    except (_Raise, ShapeError) as e:
+        raise AnalysisError(f"{tr.relpath}:remove_spares: cannot evaluate it on a mapping of padding names: {e}")
+    levels = {}
+    if isinstance(out, DictS):
+        levels["top level"] = out
+        if isinstance(out.items.get("section"), DictS):
+            levels["nested section"] = out.items["section"]
+        rec = out.items.get("records")
+        if isinstance(rec, ListLit) and rec.elts and isinstance(rec.elts[0], DictS):
+            levels["list of records"] = rec.elts[0]
+    if len(levels) != 3:
+        raise AnalysisError(f"{tr.relpath}:remove_spares: result {out!r:.120} is not a mapping with the nested section and record list kept; not decided")
     bad = []
-    for n in names:
-        t = I.truth(I.call(f, [Const(n)], {}))
-        if t is not False:
-            bad.append(f"{n!r} kept")
-    for n in keep:
-        t = I.truth(I.call(f, [Const(n)], {}))
-        if t is not True:
-            bad.append(f"{n!r} dropped")
-    chk.require(not bad, "C20-P1", f"{tr.relpath}:remove_spares.predicate", "drops spare/spareN/blanks/blanksN and nothing else",
-                f"remove_spares predicate misclassifies {bad}", key="remove_spares:predicate")
+    for lvl, d in levels.items():
+        bad += [f"{n!r} kept ({lvl})" for n in names if n in d.items]
+        bad += [f"{n!r} dropped ({lvl})" for n in keep if n not in d.items]
+    chk.require(not bad, "C20-P1", f"{tr.relpath}:remove_spares", "drops spare/spareN/blanks/blanksN and nothing else, at every nesting level",
+                f"remove_spares misclassifies {bad[:6]}", key="remove_spares:predicate")
 
 
 def header_sentinels(chk, repo, L):
+    """extract_attrs evaluated by the shape interpreter on image headers whose nullable fields are set to their blank
+    sentinel or to a filled value, one at a time and in pairs: a blank field must not surface, a filled one must surface
+    with its value, and neither may depend on what its siblings hold.  Independent of how the function is written."""
+    import itertools
+    from ..shapes import Choice, DictS, Interp, Leaf, ShapeError, TupS, _Raise, shape_of_con
     md = repo.module("ceos_alos2.sar_image.metadata")
     ea = md.func("extract_attrs")
     where = f"{md.relpath}:extract_attrs"
-    tdict = None
-    for n in ea.own_nodes():
-        if isinstance(n, ast.Assign) and norm(n.targets[0]) == "transformers" and isinstance(n.value, ast.Dict):
-            tdict = n.value
-    if tdict is None:
-        raise AnalysisError("anchor vanished: transformers of extract_attrs")
-    hdr = L.by_name("image_descriptor")
-    byname = {lf.path[-1]: lf for lf in hdr.values() if lf.kind == "field"}
-    for k, v in zip(tdict.keys, tdict.values):
-        field = const_str(k)
-        lf = byname.get(field)
-        if lf is None:
-            chk.fail("C20-P2", where, f"transformer keyed by {field!r}, which is not a field of the image file descriptor", key=f"header:{field}:nofield")
-            continue
-        classes = [a.get("cls") for a in lf.chain]
-        if "AsciiInteger" in classes:
-            blank, samples = ("c", -1), [("c", 0), ("c", 1), ("c", 65535)]
-            bname = "-1 (blank AsciiInteger)"
-        elif "AsciiFloat" in classes:
-            blank, samples = ("nan",), [("c", 0.0), ("c", 1.5)]
-            bname = "NaN (blank AsciiFloat)"
-        else:
-            blank, samples = ("c", ""), [("c", "BSQ")]
-            bname = "'' (blank text)"
-        if not isinstance(v, ast.Lambda):
-            raise AnalysisError(f"{where}: transformer of {field} is not a lambda; not modelled")
-        try:
-            params, paths = summarize(v)
-        except Undecidable as e:
-            raise AnalysisError(f"{where}: transformer of {field} outside the fragment: {e}")
-        P0 = ("param", 0)
-        try:
-            got_blank = run_paths(paths, {P0: blank})
-        except Unknown as e:
-            raise AnalysisError(f"{where}: cannot evaluate the transformer of {field} on its blank sentinel: {e}")
-        is_marker = got_blank == ("seq", "list", [])
-        chk.require(is_marker, "C20-P2", where, f"{field}: blank sentinel {bname} -> [] (attribute dropped)",
-                    f"{field} decodes a blank field to {bname}, but its transformer tests something else and yields {render(got_blank)}: a fabricated attribute instead of a missing one "
-                    f"(normal form {show_paths(paths)[:120]})", key=f"header:{field}:sentinel", sample={"field": field, "codec": [c for c in classes if c], "blank": bname, "result": render(got_blank)})
-        for s in samples:
-            try:
-                got = run_paths(paths, {P0: s})
-            except Unknown as e:
-                raise AnalysisError(f"{where}: cannot evaluate the transformer of {field} on {s}: {e}")
-            keeps = got == s or (got[0] == "seq" and s in got[2])
-            chk.require(keeps, "C20-P4", where, f"{field}: filled value {s[1]!r} -> {render(got)} (kept)",
-                        f"{field}: filled value {s[1]!r} -> {render(got)}: a present header value is dropped or altered", key=f"header:{field}:filled:{s[1]!r}")
-    # final filter drops exactly the empty-list marker
-    from ..shapes import Interp, Fn
-    pipe_call = [c for c in ast.walk(ea.node) if isinstance(c, ast.Call) and norm(c.func) == "pipe"]
-    if not pipe_call:
-        raise AnalysisError("anchor vanished: pipe in extract_attrs")
-    last = pipe_call[0].args[-1]
-    ok = isinstance(last, ast.Call) and norm(last.func) == "curry" and norm(last.args[0]) == "valfilter" and isinstance(last.args[1], ast.Lambda)
-    if ok:
+    con = L.con("image_descriptor")
+    hdr_leaves = L.by_name("image_descriptor")
+    byname = {lf.path[-1]: lf for lf in hdr_leaves.values() if lf.kind == "field"}
+
+    def header(values):
+        h = shape_of_con(con)
+
+        def put(d):
+            for k, v in list(d.items.items()):
+                if isinstance(v, DictS):
+                    put(v)
+                elif k in values:
+                    d.items[k] = Const(values[k])
+        put(h)
+        return h
+
+    def run_on(values):
         I = Interp(repo)
-        lam = I.eval(last.args[1], I.module_scope(md).child(owner=ea))
-        drop_empty = I.truth(I.call(lam, [ListLit([])], {})) is False
-        keep_list = I.truth(I.call(lam, [ListLit([Const(0), Const(5)])], {})) is True
-        keep_zero = I.truth(I.call(lam, [Const(0)], {})) is True
-        keep_str = I.truth(I.call(lam, [Const("")], {})) is True
-        ok = drop_empty and keep_list and keep_zero
-        detail = f"[] dropped={drop_empty}, [0, 5] kept={keep_list}, 0 kept={keep_zero}"
-    else:
-        detail = f"last stage is {short(last, 60)}"
-    chk.require(ok, "C20-P4", where, f"the final valfilter drops exactly the empty-list marker ({detail})",
-                f"the final stage does not drop exactly the empty-list marker: {detail}", key="header:final-filter")
+        f = I.lookup("extract_attrs", I.module_scope(md))
+        try:
+            out = I.call(f, [header(values)], {})
+        except (_Raise, ShapeError) as e:
+            raise AnalysisError(f"{where}: cannot evaluate extract_attrs on a header with {values}: {e}")
+        if isinstance(out, Choice) and all(isinstance(a, DictS) for a in out.alts) and not values:
+            merged = DictS()
+            for a in out.alts:
+                for k, v in a.items.items():
+                    merged.items.setdefault(k, v)
+            out = merged
+        if not isinstance(out, DictS):
+            raise AnalysisError(f"{where}: extract_attrs does not evaluate to a dict ({out!r:.120})")
+        return I, out
+
+    # which header field feeds which attribute (symbolic header)
+    I0, out0 = run_on({})
+    feeds = {}
+    for key, val in out0.items.items():
+        for lf in I0.leaves(val):
+            if lf.src and lf.src[-1] in byname:
+                feeds.setdefault(lf.src[-1], key)
+    nullable = {}
+    for field, key in feeds.items():
+        classes = [a.get("cls") for a in byname[field].chain]
+        if "AsciiInteger" in classes:
+            nullable[field] = (key, -1, "-1 (blank AsciiInteger)", [0, 1, 65535])
+        elif "AsciiFloat" in classes:
+            nullable[field] = (key, float("nan"), "NaN (blank AsciiFloat)", [0.0, 1.5])
+    if len(nullable) < 4:
+        raise AnalysisError(f"{where}: only {sorted(nullable)} numeric header fields surface as attributes (expected the pixel range and the three burst fields)")
+    filled = {f: (100 + i if isinstance(nullable[f][1], int) else 100.5 + i) for i, f in enumerate(sorted(nullable))}
+
+    def plain(v):
+        from ..repeval import from_shape
+        try:
+            return from_shape(v)
+        except AnalysisError:
+            return repr(v)
+
+    def holds(out, field, value):
+        key = nullable[field][0]
+        if key not in out.items or key in out.optional:
+            return False
+        got = plain(out.items[key])
+        return got == value or (isinstance(got, (list, tuple)) and value in got)
+
+    def absent(out, field):
+        return nullable[field][0] not in out.items
+
+    # one field blank, the others filled; and pairs of blanks
+    for combo in [c for r in (1, 2) for c in itertools.combinations(sorted(nullable), r)]:
+        values = dict(filled)
+        for f in combo:
+            values[f] = nullable[f][1]
+        _, out = run_on(values)
+        for f in sorted(nullable):
+            if f in combo:
+                ok = absent(out, f)
+                if len(combo) == 1:
+                    chk.require(ok, "C20-P2", where, f"{f}: blank sentinel {nullable[f][2]} -> attribute {nullable[f][0]!r} is not produced",
+                                f"{f} is blank ({nullable[f][2]}) but the attribute {nullable[f][0]!r} surfaces as {plain(out.items.get(nullable[f][0]))!r}: a fabricated value instead of a missing one",
+                                key=f"header:{f}:sentinel", sample={"field": f, "blank": nullable[f][2]})
+                elif not ok:
+                    chk.fail("C20-P2", where, f"{f} and {[x for x in combo if x != f][0]} blank: attribute {nullable[f][0]!r} still surfaces as {plain(out.items.get(nullable[f][0]))!r}", key=f"header:{f}:sentinel")
+            else:
+                ok = holds(out, f, filled[f])
+                if not ok:
+                    chk.fail("C20-P4", where, f"{f} is filled ({filled[f]!r}) but with {list(combo)} blank its attribute {nullable[f][0]!r} is {plain(out.items.get(nullable[f][0])) if nullable[f][0] in out.items else 'missing'}: "
+                                              f"a present header value is dropped or altered because a sibling field is blank", key=f"header:{f}:filled-with-blank-sibling")
+    # filled values are kept as they are (0 is a value, not a marker)
+    for f in sorted(nullable):
+        for v in nullable[f][3]:
+            values = {g: nullable[g][1] for g in nullable}
+            values[f] = v
+            _, out = run_on(values)
+            others_absent = all(absent(out, g) for g in nullable if g != f)
+            chk.require(holds(out, f, v) and others_absent, "C20-P4", where, f"{f}: filled value {v!r} surfaces as {nullable[f][0]!r} (every other nullable field blank: none of them surfaces)",
+                        f"{f}: filled value {v!r} -> {plain(out.items.get(nullable[f][0])) if nullable[f][0] in out.items else 'missing'}"
+                        f"{'' if others_absent else '; blank siblings surface: ' + str([g for g in nullable if g != f and not absent(out, g)])}: a present header value is dropped or altered",
+                        key=f"header:{f}:filled:{v!r}")
